@@ -12,6 +12,8 @@
 // has no neighbour, or (permutations) whose neighbour search has tied distances are excluded and counted.
 #include "vf/krig_ref.hpp"
 
+#include "Estimation/KrigingSystem.hpp"
+
 using namespace vf;
 using namespace vf::krig;
 
@@ -592,6 +594,187 @@ VF_PART(translation)
       compareRuns(C, c, Bt, r, B.run.est, zeros(c.nvar, nt), "coordinates translated by " + vstr(tv), "translate", kase, false, 1. + tnorm / 16.);
     }
     C.nontrivial(id);
+  });
+}
+
+// ------------------------------------------------------------------------------------------------- unconditional clauses
+// "the standard deviation is ALWAYS a finite non-negative number and, with a known mean, its square never exceeds the
+// a-priori variance" is not conditional on the conditioning of the system.  This part enumerates deliberately demanding
+// configurations (smooth models without nugget, range of the order of the field, 8..30 samples, targets on and next to the
+// data) where the computed variance C00 - lambda.rhs is a rounded zero of either sign, and judges ONLY those clauses:
+//   estimate defined (not TEST)  =>  stdev defined, not NaN/inf, >= 0 ; varz not NaN/inf ;
+//   known mean                   =>  stdev^2 <= C00 + 1e-10*kappa*C00     (upper side only; skipped when kappa > 1e14 or unknown)
+// Non-vacuity is measured by driving a private KrigingSystem on the same inputs and reading the raw variance
+// _var0 - _results before the guarded square root (histogram only, the verdict uses the public kriging() outputs).
+static VVD hardLayout(int ndim, int n, int kind, double field)
+{
+  VVD x(ndim, VD(n));
+  if (kind == 0)
+  {
+    // lattice: m^ndim nodes (first n in lexicographic order) spanning [0, field]
+    int m = ndim == 1 ? n : ndim == 2 ? (int)std::ceil(std::sqrt((double)n)) : (int)std::ceil(std::cbrt((double)n));
+    if (m < 2) m = 2;
+    for (int i = 0; i < n; i++) { int r = i; for (int k = 0; k < ndim; k++) { x[k][i] = field * (double)(r % m) / (double)(m - 1); r /= m; } }
+    return x;
+  }
+  // scattered (Halton bases 2,3,5) with clusters: every 4th point is a close neighbour (field/128 away) of the previous one
+  static const int BASE[3] = {2, 3, 5};
+  for (int i = 0; i < n; i++)
+    for (int k = 0; k < ndim; k++)
+    {
+      double f = 1, h = 0;
+      for (int j = i + 1; j > 0; j /= BASE[k]) { f /= BASE[k]; h += f * (j % BASE[k]); }
+      x[k][i] = field * h;
+    }
+  for (int i = 3; i < n; i += 4) { for (int k = 0; k < ndim; k++) x[k][i] = x[k][i - 1]; x[0][i] += field / 128.; }
+  return x;
+}
+struct HardModel { ECov type; double nugget; const char* name; };
+static const HardModel HARD[4] = {{ECov::GAUSSIAN, 0., "gaussian"}, {ECov::CUBIC, 0., "cubic"}, {ECov::GAUSSIAN, 1e-10, "gaussian+nugget1e-10"}, {ECov::SPHERICAL, 0., "spherical(control)"}};
+
+static std::string rawClass(double raw, double c00)
+{
+  if (std::isnan(raw)) return "raw-variance:NaN";
+  if (raw < -1e-7 * c00) return "raw-variance:below -1e-7*C00";
+  if (raw < -1e-10 * c00) return "raw-variance:in [-1e-7,-1e-10)*C00 (clamp essential)";
+  if (raw <= 0) return "raw-variance:in [-1e-10,0]*C00 (clamp matters)";
+  if (raw < 1e-10 * c00) return "raw-variance:in (0,1e-10)*C00";
+  if (raw < 1e-7 * c00) return "raw-variance:in [1e-10,1e-7)*C00";
+  return "raw-variance:clearly positive";
+}
+
+VF_PART(stdev_always_finite)
+{
+  std::vector<int> ns = {8, 12, 20, 30};
+  std::vector<double> ratios = {0.5, 1, 2}, fields = {1, 4};
+  std::vector<int> drifts = {1, 2, 3}, nmaxis = {0, 12};  // 0 = unique
+  std::vector<double> sills = {1.};
+  if (C.thorough()) { ratios = {0.25, 0.5, 1, 2, 4}; fields = {1, 4, 1024}; nmaxis = {0, 12, 20}; sills = {1., 3.5}; }
+  Space sp;
+  sp.axis("ndim", 3).axis("ratio", (int)ratios.size()).axis("drift", 3).axis("neigh", (int)nmaxis.size()).axis("sill", (int)sills.size());
+  sp.axis("model", 4).axis("n", 4).axis("kind", 2).axis("field", (int)fields.size());
+  static const double OFF[3] = {1e-9, 1e-6, 1e-3};
+  for_each_case(C, sp, [&](uint64_t id, const std::vector<int>& ix) {
+    int ndim = ix[0] + 1, kdrift = drifts[ix[2]], nmaxi = nmaxis[ix[3]], n = ns[ix[6]], kind = ix[7];
+    double ratio = ratios[ix[1]], sill = sills[ix[4]], field = fields[ix[8]];
+    const HardModel& hm = HARD[ix[5]];
+    std::string kase = std::to_string(id);
+    char desc[320];
+    snprintf(desc, sizeof desc, "ndim=%d n=%d layout=%s field=%g model=%s range=%g sill=%g drift=%s neigh=%s", ndim, n, kind ? "scattered+clusters" : "lattice", field, hm.name, ratio * field, sill,
+             drift_name(kdrift), nmaxi ? ("moving-nmaxi" + std::to_string(nmaxi)).c_str() : "unique");
+    // ---- the problem
+    KData d;
+    d.ndim = ndim; d.nvar = 1;
+    d.x = hardLayout(ndim, n, kind, field);
+    d.z.push_back(VD(n));
+    for (int i = 0; i < n; i++) d.z[0][i] = (double)((i * 37) % 11) - 5. + 0.25 * (i % 4);
+    d.tx.assign(ndim, VD());
+    auto addT = [&](const VD& c) { for (int k = 0; k < ndim; k++) d.tx[k].push_back(c[k]); };
+    std::vector<int> onDatum;  // target -> datum it sits on / next to (-1 otherwise)
+    for (int i = 0; i < n; i++) { VD c(ndim); for (int k = 0; k < ndim; k++) c[k] = d.x[k][i]; addT(c); onDatum.push_back(i); }
+    int noff = C.thorough() ? n : std::min(n, 6);
+    for (int i = 0; i < noff; i++)
+      for (int o = 0; o < 3; o++)
+        for (int dir = 0; dir < (C.thorough() ? 2 : 1); dir++)
+        {
+          VD c(ndim);
+          for (int k = 0; k < ndim; k++) c[k] = d.x[k][i] + ((dir == 0) ? (k == 0 ? OFF[o] * field : 0.) : -OFF[o] * field);
+          addT(c); onDatum.push_back(i);
+        }
+    static const double OTHER[3][3] = {{.5, .5, .5}, {1.5, 1.25, 1.75}, {.31, .77, .19}};
+    for (int q = 0; q < 3; q++) { VD c(ndim); for (int k = 0; k < ndim; k++) c[k] = OTHER[q][k] * field; addT(c); onDatum.push_back(-1); }
+    int nt = d.nt();
+    // ---- gstlearn objects
+    set_space(ndim);
+    Db* dbin = make_dbin(d);
+    Db* dbout = make_dbout(d);
+    VectorDouble ranges(ndim, ratio * field);
+    Model* model = Model::createFromParam(hm.type, ratio * field, sill, 1., ranges, VectorDouble({sill}), VectorDouble());
+    if (hm.nugget > 0) model->addCovFromParam(ECov::NUGGET, 0., hm.nugget * sill, 1., VectorDouble(ndim, 0.), VectorDouble({hm.nugget * sill}), VectorDouble());
+    if (drift_known_mean(kdrift)) model->setMean(known_mean(kdrift, 0), 0);
+    else model->setDriftIRF(drift_order(kdrift), 0);
+    ANeigh* neigh = nmaxi ? (ANeigh*)NeighMoving::create(false, nmaxi) : (ANeigh*)NeighUnique::create();
+    struct Cleanup { Db* a; Db* b; Model* m; ANeigh* g; ~Cleanup() { delete a; delete b; delete m; delete g; } } cleanup {dbin, dbout, model, neigh};
+
+    int err = kriging(dbin, dbout, model, neigh, EKrigOpt::POINT, true, true, true);
+    C.eval();
+    if (err) { C.violation("always:kriging-refused", std::string("kriging() returned an error on a valid configuration; ") + desc, kase); return; }
+    std::vector<int> cE = find_cols(dbout, ".estim"), cS = find_cols(dbout, ".stdev"), cV = find_cols(dbout, ".varz");
+    if (cE.size() != 1 || cS.size() != 1 || cV.size() != 1) { C.violation("always:output-columns", std::string("missing output column; ") + desc, kase); return; }
+    VD est(nt), sd(nt), vz(nt);
+    for (int t = 0; t < nt; t++) { est[t] = dbout->getValueByColIdx(t, cE[0]); sd[t] = dbout->getValueByColIdx(t, cS[0]); vz[t] = dbout->getValueByColIdx(t, cV[0]); }
+
+    // ---- raw variances before the guarded square root (non-vacuity only): private KrigingSystem on fresh objects
+    VD raw(nt, TEST);
+    {
+      Db* dbo2 = make_dbout(d);
+      int iE = dbo2->addColumnsByConstant(1, TEST, "e"), iS = dbo2->addColumnsByConstant(1, TEST, "s");
+      {
+        KrigingSystem ksys(dbin, dbo2, model, neigh);
+        if (!ksys.updKrigOptEstim(iE, iS, -1) && !ksys.setKrigOptCalcul(EKrigOpt::POINT, VectorInt(), false) && ksys.isReady())
+        {
+          for (int t = 0; t < nt; t++)
+          {
+            if (ksys.estimate(t)) break;
+            double s = dbo2->getArray(t, iS);
+            if (!FFFF(s)) raw[t] = ksys._var0.getValue(0, 0, false) - ksys._results.getValue(0, 0, false);
+          }
+          ksys.conclusion();
+        }
+      }
+      delete dbo2;
+    }
+
+    // ---- conditioning (known mean clause only): the harness's own system over the neighbours
+    Reference ref(d, model, kdrift);
+    double c00 = sill * (1. + hm.nugget);
+    std::map<std::vector<int>, double> kcache;
+    bool touched = false;
+    for (int t = 0; t < nt; t++)
+    {
+      C.eval();
+      std::string info = std::string(desc) + " target#" + std::to_string(t) + (onDatum[t] >= 0 ? (t < n ? " ON datum " : " next to datum ") + std::to_string(onDatum[t]) : std::string(" (free)"));
+      if (FFFF(est[t])) { C.skip(); C.outcome("estimate-undefined(TEST):not-judged"); continue; }
+      std::string cls = std::string(drift_known_mean(kdrift) ? "known-mean" : "drift") + ":" + (nmaxi ? "moving" : "unique");
+      if (!FFFF(raw[t]))
+      {
+        std::string rc = rawClass(raw[t], c00);
+        C.outcome(rc);
+        if (raw[t] <= 0) touched = true;
+      }
+      bool ok = true;
+      if (FFFF(sd[t])) { C.violation("always:stdev-undefined-with-defined-estimate:" + cls, "estimate " + fmt(est[t]) + " is defined but stdev is the undefined value; " + info, kase); ok = false; }
+      else if (std::isnan(sd[t])) { C.violation("always:stdev-NaN:" + cls, "stdev is NaN (estimate " + fmt(est[t]) + ", raw variance " + fmt(raw[t]) + " = " + fmt(raw[t] / c00) + " x C00); " + info, kase); ok = false; }
+      else if (std::isinf(sd[t])) { C.violation("always:stdev-infinite:" + cls, "stdev is infinite (estimate " + fmt(est[t]) + "); " + info, kase); ok = false; }
+      else if (sd[t] < 0) { C.violation("always:stdev-negative:" + cls, "stdev = " + fmt(sd[t]) + " < 0; " + info, kase); ok = false; }
+      if (!FFFF(vz[t]) && !std::isfinite(vz[t])) { C.violation("always:varz-not-finite:" + cls, "varz = " + fmt(vz[t]) + "; " + info, kase); ok = false; }
+      if (FFFF(vz[t])) { C.violation("always:varz-undefined-with-defined-estimate:" + cls, "estimate " + fmt(est[t]) + " is defined but varz is the undefined value; " + info, kase); ok = false; }
+      if (ok && drift_known_mean(kdrift))
+      {
+        // neighbours: all samples (unique) or krigtest (moving)
+        std::vector<int> nb;
+        if (!nmaxi) nb = unique_nbgh(d);
+        else { Krigtest_Res r = krigtest(dbin, dbout, model, neigh, t); nb.assign(r.nbgh.begin(), r.nbgh.end()); }
+        auto it = kcache.find(nb);
+        if (it == kcache.end())
+        {
+          RefSystem S;
+          ref.buildSystem(nb, S);
+          it = kcache.emplace(nb, S.singular ? -1. : S.kappa).first;
+        }
+        double kappa = it->second;
+        if (kappa < 0 || kappa > 1e14) C.outcome("sk-bound:not-judged(kappa>1e14-or-numerically-singular)");
+        else
+        {
+          bool within = sd[t] * sd[t] <= c00 + 1e-10 * std::max(1., kappa) * c00;
+          if (!within) { C.violation("always:sk-variance-exceeds-prior:" + cls, "known mean: stdev^2 = " + fmt(sd[t] * sd[t]) + " > a-priori variance " + fmt(c00) + " (kappa=" + fmt(kappa) + "); " + info, kase); ok = false; }
+          C.outcome(kappa > KAPPA_MAX ? "sk-bound:judged-on-ill-conditioned-system(1e8<kappa<=1e14)" : "sk-bound:judged(kappa<=1e8)");
+        }
+      }
+      C.outcome(ok ? (sd[t] == 0 ? "stdev:exactly-zero" : "stdev:finite-positive") : "always:VIOLATED");
+    }
+    if (touched) C.nontrivial(id);
+    if (id % 997 == 5) C.sample("{\"id\":" + kase + ",\"case\":" + jstr(desc) + "}");
   });
 }
 
